@@ -117,9 +117,7 @@ class Server(utils.EventEmitter):
                 channel.connection.handle,
                 channel.source_cid,
             )
-            channel.sink = lambda pdu: self.on_gatt_pdu(
-                channel, att.ATT_PDU.from_bytes(pdu)
-            )
+            channel.sink = lambda pdu: self.on_raw_gatt_pdu(channel, pdu)
 
         return self.device.create_l2cap_server(
             spec or l2cap.LeCreditBasedChannelSpec(psm=att.EATT_PSM), handler=on_channel
@@ -559,6 +557,24 @@ class Server(utils.EventEmitter):
         self.subscribers.pop(bearer, None)
         self.indication_semaphores.pop(bearer, None)
         self.pending_confirmations.pop(bearer, None)
+
+    def on_raw_gatt_pdu(self, bearer: att.Bearer, pdu: bytes) -> None:
+        # Parse the PDU; a request that cannot be parsed is still answered
+        try:
+            att_pdu = att.ATT_PDU.from_bytes(pdu)
+        except Exception:
+            logger.warning(f'malformed ATT PDU from {_bearer_id(bearer)}: {pdu.hex()}')
+            if pdu and pdu[0] in att.ATT_REQUESTS:
+                self.send_response(
+                    bearer,
+                    att.ATT_Error_Response(
+                        request_opcode_in_error=pdu[0],
+                        attribute_handle_in_error=0x0000,
+                        error_code=att.ATT_INVALID_PDU_ERROR,
+                    ),
+                )
+            return
+        self.on_gatt_pdu(bearer, att_pdu)
 
     def on_gatt_pdu(self, bearer: att.Bearer, att_pdu: att.ATT_PDU) -> None:
         logger.debug(f'GATT Request to server: {_bearer_id(bearer)} {att_pdu}')
